@@ -31,7 +31,7 @@ ASSUMPTIONS = [
     "phi(op_c(x)) = s * op_d(phi x) with s the parity of the custom pseudoscalar spelling",
     "rejection clause asserted for pairs that differ in the ordered metric or the basis list; pairs that differ only in "
     "start_index or options are generated but only counted (the statement does not cover them)",
-    "matrix representations of custom bases are covered by C18",
+    "matrix representation of a custom-basis algebra: homomorphism and first column on sampled blade pairs (C18 has the full check)",
 ]
 REQUIRED_LABELS = {"kind:relabel": 0.4, "kind:reject": 0.08, "basis:odd-spelling": 0.2}
 
@@ -43,7 +43,7 @@ def budget(tier):
 
 @st.composite
 def _cases(draw, tier):
-    kind = draw(st.sampled_from(["relabel", "relabel", "relabel", "access", "reject"]))
+    kind = draw(st.sampled_from(["relabel", "relabel", "relabel", "access", "access", "matrix", "reject"]))
     if kind == "reject":
         return draw(_reject_case())
     dmax = 4 if tier == "quick" else 5
@@ -57,7 +57,12 @@ def _cases(draw, tier):
         a = draw(S.operand(d, max_len=12))
         key = draw(st.integers(0, 2 ** d - 1))
         bits = [j for j in range(d) if key >> j & 1]
-        return {"kind": kind, "cfg": cfg, "a": a, "spell": list(draw(st.permutations(bits)))}
+        # several spellings of the SAME blade, read one after the other on one algebra object
+        return {"kind": kind, "cfg": cfg, "a": a, "spells": [list(draw(st.permutations(bits))) for _ in range(draw(st.integers(1, 4)))]}
+    if kind == "matrix":
+        n = 2 ** d
+        return {"kind": kind, "cfg": cfg, "pairs": [list(p) for p in draw(st.lists(st.tuples(st.integers(0, n - 1), st.integers(0, n - 1)), min_size=3, max_size=12))],
+                "a": draw(S.operand(d, max_len=8))}
     two = draw(st.sampled_from([True, True, False]))
     op = draw(st.sampled_from(BIN if two else UN + ["grade"]))
     heavy = op in ("inv", "div", "outertan", "sw", "proj")
@@ -174,7 +179,7 @@ def evaluate(case):
         raise Violation("custom-basis-constructible", "Algebra", f"constructing the algebra for {cfg} (or its default-basis twin) raised "
                         f"{type(e).__name__}: {e}", exc=type(e).__name__)
     d = phi.refc.d
-    labels = ["kind:" + ("relabel" if case["kind"] == "relabel" else "access"), f"d:{d}",
+    labels = ["kind:" + ("relabel" if case["kind"] == "relabel" else case["kind"]), f"d:{d}",
               "basis:named" if cfg.get("named") else "basis:custom"]
     if phi.odd:
         labels.append("basis:odd-spelling")
@@ -184,14 +189,24 @@ def evaluate(case):
     xc = kd.mk(algc, ka, va)
     kda, vda = phi.keys_vals(ka, va)
     xd = kd.mk(algd, kda, vda)
+    if case["kind"] == "matrix":
+        return _matrix(case, phi, algc, labels)
     if case["kind"] == "access":
-        sp = "".join(phi.refc.gens[j] for j in case["spell"])
+      for spell in (case.get("spells") or [case.get("spell")]):
+        sp = "".join(phi.refc.gens[j] for j in spell)
         name = "e" + sp
         gc = _observe(lambda: getattr(xc, name))
         gd = _observe(lambda: getattr(xd, name))
         if gc != gd:
             raise Violation("accessor-commutes", "getattr", f"x.{name} = {gc} in basis {cfg['basis']} but the relabelled element in the "
                             f"default basis reads {gd}", custom=repr(gc), default=repr(gd))
+        # the named blade itself is the ordered product of its generators
+        bc = _observe(lambda: kd.to_dict(algc.blades[name]))
+        bd = _observe(lambda: kd.to_dict(algd.blades[name]))
+        if bc[0] == "ok" and bd[0] == "ok":
+            ok, why = kd.elem_equal(phi.elem(bc[1]), bd[1])
+            if not ok:
+                raise Violation("accessor-commutes", "blades", f"blades['{name}']: custom basis gives {kd.show(bc[1])}, default basis gives {kd.show(bd[1])}: {why}")
         # construction by keyword with that spelling round-trips
         if sp:
             val = F(7, 3)
@@ -202,8 +217,8 @@ def evaluate(case):
                 if not ok:
                     raise Violation("accessor-commutes", "construct", f"multivector({name}=7/3): custom basis gives {kd.show(mc[1])}, "
                                     f"default basis gives {kd.show(md[1])}: {why}")
-        key = [cfg["sig"], cfg.get("basis"), "access", ka, sp]
-        return Info(phi.odd or phi.reordered, labels, key)
+      key = [cfg["sig"], cfg.get("basis"), "access", ka, case.get("spells") or case.get("spell")]
+      return Info(phi.odd or phi.reordered, labels, key)
     op = case["op"]
     yc = yd = None
     kb = None
@@ -234,6 +249,36 @@ def evaluate(case):
     labels.append(f"op:{op}")
     key = [cfg["sig"], cfg.get("basis"), op, ka, kb, case.get("grades")]
     return Info((phi.odd or phi.reordered) and bool(clean(exp)), labels, key, counters)
+
+
+def _matrix(case, phi, algc, labels):
+    """Matrix representation of the custom-basis algebra: homomorphism on sampled blade pairs, first column = coefficients in
+    the custom canonical order (the relabelling of a faithful representation is a faithful representation)."""
+    import numpy as np
+    ref = phi.refc
+    n = 2 ** ref.d
+    canon = list(ref.canon_keys)
+
+    def mat(x, what):
+        try:
+            return np.array(x.asmatrix(), dtype=object)
+        except Exception as e:
+            raise Violation("matrix-representation", "asmatrix", f"{what}.asmatrix() raised {type(e).__name__}: {e}", exc=type(e).__name__)
+    M = {}
+    for i, j in case["pairs"]:
+        for k in (i, j, i ^ j):
+            if k not in M:
+                M[k] = mat(algc.blades[ref.bin2name[k]], ref.bin2name[k])
+        s_ = ref.T(i, j)
+        exp = M[i ^ j] * s_ if s_ else np.zeros((n, n), dtype=object)
+        got = M[i] @ M[j]
+        if got.shape != exp.shape or not bool((got == exp).all()):
+            raise Violation("matrix-representation", "asmatrix", f"{ref.bin2name[i]}.asmatrix() @ {ref.bin2name[j]}.asmatrix() != "
+                            f"({ref.bin2name[i]}*{ref.bin2name[j]}).asmatrix() in basis {case['cfg'].get('basis')} (signature by name {ref.sig})")
+        col = list(M[i][:, 0])
+        if col != [1 if c == i else 0 for c in canon]:
+            raise Violation("matrix-representation", "asmatrix", f"first column of {ref.bin2name[i]}.asmatrix() is {col}")
+    return Info(phi.odd or phi.reordered, labels + ["kind:matrix"], [case["cfg"]["sig"], case["cfg"].get("basis"), "matrix", case["pairs"]])
 
 
 def _evaluate_reject(case):
